@@ -930,7 +930,8 @@ def emit_struct(fields):
     return "\n".join(out) + "\n"
 
 
-PRELUDE = """From Coq Require Import List NArith Bool String.
+PRELUDE = """From Coq Require Import String.
+From Coq Require Import List NArith Bool.
 Import ListNotations.
 Open Scope N_scope.
 
